@@ -38,6 +38,11 @@ def _seeds(name, n):
 def digests(n, reverse=False, only=None):
     """{cfg name: {seed: digest}} computed in this process."""
     runner.warmup()
+    for mod in _modules():
+        # one-time set-up of every property's workload (the C07 corpus imports hundreds of modules)
+        # happens before the first run, not between runs of other drivers
+        if hasattr(mod, 'warmup'):
+            mod.warmup()
     out = {}
     for mod in _modules():
         drivers, cfgs = mod.setup('quick')
